@@ -17,6 +17,7 @@ import (
 	"sync"
 	"time"
 
+	"go.mongodb.org/mongo-driver/bson/primitive"
 	"go.mongodb.org/mongo-driver/mongo"
 	"go.mongodb.org/mongo-driver/mongo/options"
 
@@ -111,6 +112,27 @@ func c05Calls() map[string]c05Call {
 		// (the smallest expiry there is: expireAfterSeconds 0 is kept as one nanosecond; pad holds no dates)
 		_, err := w.C("d", "c").Indexes().CreateOne(w.Ctx, mongo.IndexModel{Keys: bD("pad", int32(1)), Options: options.Index().SetExpireAfterSeconds(0).SetPartialFilterExpression(bD())})
 		return err
+	})
+	// a collection with a TTL index and a document that has expired, and one pass of the expiry loop (what the loop
+	// does at every tick: begin, expire, commit) whose commit goes through the store like any other
+	add("ttlidx", func(w *world.World) error {
+		_, err := w.C("d", "t").Indexes().CreateOne(w.Ctx, mongo.IndexModel{Keys: bD("at", int32(1)), Options: options.Index().SetExpireAfterSeconds(60)})
+		return err
+	})
+	add("insold", func(w *world.World) error {
+		_, err := w.C("d", "t").InsertMany(w.Ctx, []interface{}{bD("_id", "old", "at", primitive.NewDateTimeFromTime(time.Now().Add(-2*time.Hour))), bD("_id", "new", "at", primitive.NewDateTimeFromTime(time.Now().Add(2*time.Hour)))})
+		return err
+	})
+	add("expire", func(w *world.World) error {
+		txn, err := w.Engine.Begin(w.Ctx, true)
+		if err != nil {
+			return err
+		}
+		if err := txn.Expire(); err != nil {
+			w.Engine.Abort(txn)
+			return err
+		}
+		return w.Engine.Commit(txn)
 	})
 	add("ins3other", func(w *world.World) error {
 		_, err := w.C("d", "e").InsertOne(w.Ctx, bD("_id", "x"))
@@ -404,6 +426,7 @@ func init() {
 			{"ins1", "idx", "insdotted", "dropc"},
 		}
 		histories = append(histories, []string{"ins1", "txn", "upd1", "wtxn"}, []string{"ins1", "txnkeep", "sesswrite", "upd1"})
+		histories = append(histories, []string{"ttlidx", "insold", "expire", "ins1"})
 		if !c.Quick() {
 			histories = append(histories, []string{"ins2big", "ins1", "upd1", "del2", "ins3other", "idx"})
 		}
